@@ -19,6 +19,7 @@ EXPLANATION = (
     "is only possible under validate_statepoint=False; (d) the mapping passed to open_job is deep-copied (C01-d); (e) a "
     "handle with directory_known=True is only constructed by open_job(id=...) on paths that established existence through "
     "the directory listing or _contains_job_id."
+    ' Also: candidates for an abbreviated id are exactly the listed ids with that prefix (comprehension form, or a bisection range whose bounds are decided), and no mutable object bound in a class body is modified through an instance (C08-e).'
 )
 UNDECIDED = ("Type-exact round trip through the file, prefix resolution for every collision pattern and the KeyError / "
              "LookupError choice for every id are value-level and not decided.")
@@ -320,6 +321,27 @@ def c02_e(ctx: Ctx):
                 out.append(ctx.viol(R, fi, mdef, f"candidates for an abbreviated id are taken from {canon(v.generators[0].iter)}, not from the directory listing"))
             else:
                 out.append(ctx.viol(R, fi, mdef, f"candidates are selected by `{cond}`, not by `id_.startswith({idp})`: an abbreviation matches ids it is not a prefix of"))
+        elif isinstance(v, ast.Subscript) and isinstance(v.slice, ast.Slice) and v.slice.lower is not None and v.slice.upper is not None:
+            # a range of the sorted listing found by bisection: [bisect_left(L, p), <upper>) must contain every id that starts with p
+            lo = common.inline_at(ctx, fi, v.slice.lower, mdef)
+            hi = common.inline_at(ctx, fi, v.slice.upper, mdef)
+            blo = common.pmatch("bisect_left(L, P)", lo) or common.pmatch("bisect.bisect_left(L, P)", lo)
+            bhi_l = common.pmatch("bisect_left(L, P + C * K)", hi) or common.pmatch("bisect.bisect_left(L, P + C * K)", hi)
+            bhi_r = common.pmatch("bisect_right(L, P + C * K)", hi) or common.pmatch("bisect.bisect_right(L, P + C * K)", hi) or common.pmatch("bisect(L, P + C * K)", hi)
+            src = common.inline_at(ctx, fi, v.value, mdef)
+            is_sorted = isinstance(src, ast.Call) and isinstance(src.func, ast.Name) and src.func.id == "sorted"
+            if blo and (bhi_l or bhi_r) and is_sorted and canon(blo["P"]) == idp:
+                b = bhi_l or bhi_r
+                pad = ctx.fold(b["C"], fi)
+                if bhi_l and isinstance(pad, str) and pad <= "f":
+                    out.append(ctx.viol(R, fi, mdef, f"the candidates are the sorted ids in [bisect_left(p), bisect_left(p + {pad!r}*k)): the upper key is itself a possible id (all remaining digits "
+                                        f"{pad!r}) and bisect_left excludes it, so the abbreviation of an id that ends in {pad!r}s raises KeyError instead of resolving"))
+                elif (bhi_r and isinstance(pad, str) and pad >= "f") or (bhi_l and isinstance(pad, str) and pad > "f"):
+                    out.append(ctx.ok(R, fi, mdef, "candidates are the sorted listed ids between the prefix and an upper key above every id with that prefix"))
+                else:
+                    out.append(ctx.inc(R, fi, mdef, f"bisection bounds not decided: {canon(hi)[:60]}"))
+            else:
+                out.append(ctx.inc(R, fi, mdef, f"candidates for an abbreviated id are computed as {canon(v)[:50]}: cannot show that exactly the listed ids with that prefix are considered"))
         else:
             out.append(ctx.inc(R, fi, mdef, f"candidates for an abbreviated id are computed as {canon(v)[:50]}: not the recognised `[i for i in <listing> if i.startswith({idp})]`, "
                                "cannot show that exactly the listed ids with that prefix are considered"))
